@@ -2,7 +2,7 @@
 """Seeded behaviour-breaking changes (written by independent sub-agents).
 
   seeded.py import <name> <worktree> <property> "<needs>"   verify + store under seeded/<name>/
-  seeded.py run <name> [--tier quick] [--seed 0] [CHECK ...]   apply to /repo, run checks, undo
+  seeded.py run <name> [--tier quick] [--seed 0] [CHECK ...]   apply (scratch copy; SEEDED_INPLACE=1: /repo itself), run checks, undo
   seeded.py runall [--tier quick]                             every seeded change against its property's check
 """
 import glob, json, os, shutil, subprocess, sys
@@ -53,13 +53,16 @@ def do_run(name, checks, tier, seed):
   meta = json.load(open(os.path.join(d, 'meta.json')))
   checks = checks or [meta['property']]
   assert sh(['git', '-C', '/repo', 'status', '--porcelain', '--untracked-files=no']).stdout.strip() == '', '/repo not clean'
-  # Another run of the checks in progress (vp run) imports /repo too: patching /repo in place
-  # would contaminate it, so use a scratch copy through VERIF_REPO then.
+  # By default the patch is applied to a scratch copy of /repo that the checks read through
+  # VERIF_REPO: a background run of the checks (vp run) imports /repo too and patching it in place
+  # would contaminate that run (it happened once: a thorough C01 run imported a seeded tree).
+  # SEEDED_INPLACE=1 applies to /repo itself (git -C /repo apply ...; git -C /repo checkout -- .),
+  # and only when no other worker is alive.
   mine = os.getpid()
   others = [l for l in sh(['pgrep', '-af', 'vlib.worker|vlib.framework']).stdout.splitlines()
             if l.strip() and str(mine) not in l.split()[:1]]
   scratch = None
-  if others or os.environ.get('SEEDED_SCRATCH'):
+  if others or not os.environ.get('SEEDED_INPLACE'):
     import tempfile
     scratch = tempfile.mkdtemp(prefix='seedrun-', dir='/tmp')
     assert sh(['rsync', '-a', '--exclude', '.git', '/repo/', scratch + '/']).returncode == 0
